@@ -22,6 +22,8 @@ for n in sorted(shapes):
     row = []
     for i in range(math.prod(shapes[n])):
         v = vals.get(f'{n}_{i}')
+        if n in (r.get('patterned') or {}) and i // shapes[n][1] != i % shapes[n][1]:
+            v = B.pyzero
         if v is None:
             cl = prof[c] if prof else 'P'
             v = {'Z': B.pyzero, 'I': B.pytop}.get(cl, {'real': 0.25, 'log': -1.5, 'viterbi': -0.5, 'bool': True}[kind])
